@@ -80,10 +80,10 @@ kept]` in loop order: segments outer (a single pass for LABELMAP), planes in `pl
 globally empty planes removed when `omit_empty_frames` (unless every plane is empty), and a frame dropped iff it
 belongs to a single segment, empty frames are omitted and it is all zero. -/
 theorem storedFrames_spec (arr : Mask) (segs : List Nat) (t : SegType) (mfv : Nat) (omt : Bool) (order : List Nat)
-    (hcell : ∀ c ∈ cells t segs (planOrder arr omt order).2, ∃ px, cellE arr segs t mfv c.1 c.2 = .ok px) :
+    (hcell : ∀ c ∈ cells t segs (planOrder arr mfv omt order).2, ∃ px, cellE arr segs t mfv c.1 c.2 = .ok px) :
     storedFrames arr segs t mfv omt order =
-      .ok ((cells t segs (planOrder arr omt order).2).filterMap
-            (cellFrame arr segs t mfv (planOrder arr omt order).1)) :=
+      .ok ((cells t segs (planOrder arr mfv omt order).2).filterMap
+            (cellFrame arr segs t mfv (planOrder arr mfv omt order).1)) :=
   storedFrames_eq arr segs t mfv omt order hcell
 
 /-- (5) **What is stored per segment** (`_get_segment_pixel_array` on the array `_check_and_cast_pixel_array`
@@ -154,9 +154,9 @@ theorem build_succeeds (codec : Option Codec) (rows cols : Nat) (t : SegType) (s
     (by have := hperm.length_eq; simpa using this.symm) hsz
     (fun p hp => List.mem_range.mp (hperm.subset hp))
 
-/-- (6c) Stored values fit the pixel depth, so nothing wraps on the way into `PixelData`: an accepted
-`max_fractional_value` is at most 255 (this is the translated admission test). -/
-theorem mfv_fits (mfv : Nat) (v : Int) (h : segMfvGuard (mfv : Int) = .ok v) : mfv ≤ 255 :=
+/-- (6c) Stored values fit the pixel depth, so nothing wraps on the way into `PixelData`, and reading back never
+divides by zero: an accepted `max_fractional_value` lies in 1..255 (this is the translated admission test). -/
+theorem mfv_fits (mfv : Nat) (v : Int) (h : segMfvGuard (mfv : Int) = .ok v) : 1 ≤ mfv ∧ mfv ≤ 255 :=
   segMfvGuard_ok mfv v h
 
 /-- (7) **Encoding workers.**  Results are gathered by position from the futures; whatever order the workers
@@ -226,10 +226,10 @@ theorem castMask_rejects_overlap_labelmap (segs : List Nat) (ps : List (List (Li
     castMask segs .labelmap (.intStack ps) = .error .value :=
   reject_overlap_labelmap segs ps pl ch hpl hch hlen h01 hne hps hsum
 
-/-- `max_fractional_value` above 255 (translated admission test), and encapsulated syntaxes for BINARY -/
+/-- `max_fractional_value` outside 1..255 (translated admission test), and encapsulated syntaxes for BINARY -/
 theorem build_rejects_bad_options (rows cols : Nat) (segs : List Nat) (mfv : Nat) (omt : Bool)
     (order : List Nat) (m : Mask) :
-    (∀ codec, 255 < mfv → ∃ e, build codec rows cols .fractional segs mfv omt order m = .error e) ∧
+    (∀ codec, (mfv < 1 ∨ 255 < mfv) → ∃ e, build codec rows cols .fractional segs mfv omt order m = .error e) ∧
     (∀ c : Codec, ∃ e, build (some c) rows cols .binary segs mfv omt order m = .error e) :=
   ⟨fun codec h => reject_mfv codec rows cols segs mfv omt order m h,
    fun c => reject_encapsulated_binary c rows cols segs mfv omt order m⟩
